@@ -56,6 +56,10 @@ CLAIMED = {
             "runtime monitoring with per-call fault and crash-point enumeration: synchronous monitor on candidate NodeClaim deletes issued by the orchestration queue (judged against the replacements' Initialized condition on the authoritative store), rollback monitor over the API objects and cluster state after failed / crashed actions, double-command monitor",
             "Scenarios (clusters grown through the real pipeline; drift-with-pods / underutilised / mixed) let the real disruption controller start a command; an orchestration script interleaves queue reconciles with the replacements being launched, registered and initialised by the real lifecycle controller + kubelet actor in PRNG orders, with a replacement vanishing, stalling past the retry deadline, or initialising only after it. Each scenario is replayed with one injected 500 / 409 (/404) at every k-th Karpenter API or provider call from the round that starts the command on, and with a process crash + full in-memory restart at that call, each replay with its own interleaving. No candidate may be deleted before every replacement is Initialized; failed or crashed actions must have deleted nothing and must return candidates to service within 5 fault-free reconciles; no node in two commands. One genuine defect found and fixed.",
             "Crash = every Karpenter call from call k on fails without effect until the driver restarts all in-memory components (calls happen on worker goroutines, so a panic cannot be recovered at the reconcile boundary); quick enumerates every 3rd call of 16 scenarios; partial replacement-creation leaks are outside the statement."),
+    "C09": ("fault_enumeration", "DESIGN.md §3 C09",
+            "runtime monitoring with per-call fault and crash enumeration: synchronous monitor on every finalizer-removing write on Node and NodeClaim, judged against the authoritative store, the provider's ground-truth instance table (by NodeClaim UID) and the virtual clock",
+            "Generated termination scenarios (NodeClaims from the real provisioner brought to every lifecycle stage, all pod / volume classes, PDBs, TGP or none, asynchronous instance termination, vanishing instances; emulated kubelet, attach-detach, node-lifecycle and cloud-controller-manager actors) are run fault-free to enumerate Karpenter's K API + provider calls, then re-run with an error (500/409/404/timeout), a crash + restart, or a permanent error at each call, followed by fault-free completion, with stale snapshots handed to the reconcilers. The Node finalizer may only go after cordon, drain, volume detach / TGP expiry and instance-gone (or the NotReady shortcut); the NodeClaim finalizer only after its Nodes and every instance created for its UID are gone. 8/8 mutants caught. One genuine defect fixed (same-lifetime leak), two restart variants recorded.",
+            "Single-threaded schedules; stale reads only for the reconciled object; no lost-response faults; quick thins fault points (every third closing-phase call)."),
     "C10": ("exploration", "DESIGN.md §3 C10",
             "runtime monitoring: API-boundary event-log monitors (eviction sub-resource creates and pod deletes with grace, judged atomically with the write) plus Queue.Has observation over PRNG-interleaved and concurrent drain passes / eviction-queue reconciles; Go race detector",
             "The real node-termination controller, Terminator and eviction queue are executed on generated drain histories (pod mixes over priorities, owners, grace periods, do-not-disrupt forms, tolerations, terminating/terminal states; PDB layouts; NodeClaims with and without terminationGracePeriod; deadline annotation moved later/earlier/removed; pods replaced under the same name; clock swept across D-grace boundaries); every pod-removal call is judged by an independent re-implementation of the statement (removal mode, protected pods, tier ordering, deadline never pushed out). Part of the case list is repeated under the race detector, where a data race between Karpenter paths is a violation. Held-on-observed.",
